@@ -1,6 +1,7 @@
 ---- MODULE MC_layout ----
 EXTENDS MCOFWire
 TheCases == {}
+TheRCases == {}
 TheAround == {}
 ASSUME PrintT(<<"L", ToJson(Layout)>>)
 ASSUME PrintT(<<"N", ToJson([fields |-> NxmFields, maskable |-> NxmMaskable])>>)
